@@ -14,13 +14,15 @@ SEG = 'tracklib.algo.segmentation'
 SIM = 'tracklib.algo.simplification'
 
 EXPLANATION = (
-    "Static analysis of optimalPartition / backtracking / backward / optimalSegmentation and their callers: the "
-    "cell update is interpreted for both direction constants on the three orderings of (candidate, current) -- the "
-    "mode parameter must select min or max and value/split are co-updated; loop ranges of the interval DP; the "
-    "split-table expansion is interpreted on all 288 consistent split tables for n<=5; callers forward the "
-    "direction they document and the optional global parameter under an identity test.")
+    "Static analysis of optimalPartition / backtracking / backward / optimalSegmentation and their callers: the functions are "
+    "interpreted (not executed) by the checker's AST interpreter with a model of numpy arrays.  The partition returned is the "
+    "optimum of the direction asked for on every weak ordering of the sums of the candidate lists (n = 3, 4) and when each list "
+    "in turn is the unique optimum (n = 2..6); the split-table expansion is interpreted on all consistent split tables for n <= 5 "
+    "and on sparse tables of up to 130 candidates; the chain simplify -> optimalSimplification -> optimalSegmentation forwards the "
+    "direction it documents, a symmetric matrix with the costs as returned and the global parameter iff it is not None; the reward "
+    "of the stop detector is the one documented (minimal enclosing circle, by the checker) and stops are found by maximising.")
 ASSUMPTIONS = ["the cost matrix is read only through D (checked: initialisation copies the upper triangle)"]
-TECHNIQUE = "abstract interpretation of optimalPartition / backward / backtracking and of the delegation chain simplify -> optimalSimplification -> optimalSegmentation by the checker's AST interpreter with a numpy array model: every weak ordering of the candidate-list sums for n = 3, 4 (four embeddings, costs of either sign), every list the unique optimum for n = 2..6, all 303 consistent split tables, uint8 matrices, recorded direction / matrix / parameter of the chain (bounded case domains)"
+TECHNIQUE = "abstract interpretation of optimalPartition / backward / backtracking and of the delegation chain simplify -> optimalSimplification -> optimalSegmentation by the checker's AST interpreter with a numpy array model: every weak ordering of the candidate-list sums for n = 3, 4 (four embeddings, costs of either sign), every list the unique optimum for n = 2..6, all 303 consistent split tables, uint8 matrices, recorded direction / matrix / parameter of the chain, the stop-detection reward with a recording stand-in for the partitioner (bounded case domains)"
 
 
 def vr(v):
